@@ -177,6 +177,20 @@ class Evaluator:
             return self.binary(ast, old)
         if k == "call":
             return self.call(ast[1], ast[2], old)
+        if k == "sum":
+            _, var, lo, hi, body = ast
+            lo = self.conc(self.ev(lo, old))
+            hi = self.conc(self.ev(hi, old))
+            acc = self.dom.s_const(0)
+            saved = self.bound.get(var)
+            for i in range(lo, hi):
+                self.bound[var] = i
+                acc = self.dom.s_bin(self.st, "+", acc, self.as_int(self.ev(body, old)))
+            if saved is None:
+                self.bound.pop(var, None)
+            else:
+                self.bound[var] = saved
+            return acc
         if k in ("forall", "exists"):
             _, var, lo, hi, body = ast
             lo = self.conc(self.ev(lo, old))
@@ -410,6 +424,14 @@ class Evaluator:
                 return self.dom.s_cong(self.st, a, b, m)
             a, b, m = [self.as_int(self.ev(x, old)) for x in args]
             return self.dom.s_cong(self.st, a, b, m)
+        if name == "congw":
+            # congruence with a ghost quotient: as a proof goal  a - b == m*k  for the given witness k (which may
+            # name locals of the body); for callers it is the plain congruence
+            a, b, m = [self.as_int(self.ev(x, old)) for x in args[:3]]
+            if self.assume or self.phase == "pre":
+                return self.dom.s_cong(self.st, a, b, m)
+            k = self.as_int(self.ev(args[3], old))
+            return self.dom.s_cmp("==", self.dom.s_bin(self.st, "-", a, b), self.dom.s_bin(self.st, "*", m, k))
         if name == "ite":
             c = self.bool_of(self.ev(args[0], old))
             a = self.ev(args[1], old)
